@@ -1651,6 +1651,14 @@ func ExistExpr(query *Query, current Map, expr *sqlparser.ExistsExpr, opts ...Ex
 		if holder := strings.SplitN(q.table, ".", 2)[0]; len(q.alias) == 0 && len(q.table) > 0 && holder != query.alias {
 			delete(merged, holder)
 		}
+		// (under an alias the nested row's columns are one level down)
+		if inner, ok := item[q.alias].(Map); ok && len(q.alias) > 0 {
+			for key := range inner {
+				if key != q.alias && key != "<-" {
+					delete(merged, key)
+				}
+			}
+		}
 		for key, value := range item {
 			merged[key] = value
 		}
